@@ -185,10 +185,12 @@ CHECKS = {
     "C01": dict(
         text="Coq theorems over every record history (any interleaving of FORK / EXIT / COMM / EXEC / SAMPLE / MMAP records, pid/tid reuse, unannounced threads): C01_conservation (the samples flushed "
              "into the profile are, as a multiset of (thread entry, time), exactly the accepted samples: the per-process buffers, their retirement at EXIT / EXEC and the final flush lose and duplicate "
-             "nothing), C01_nothing_else (every output sample stems from a SAMPLE record of a non-idle thread at its time relative to the origin), C01_idle_ignored. Tied end to end: generated histories "
+             "nothing), C01_nothing_else (every output sample stems from a SAMPLE record of a non-idle thread at its time relative to the origin), C01_idle_ignored; with --reuse-threads "
+             "(Model/ConverterReuse.v: the recycling pools of processes and threads by name) C01_reuse_conservation, C01_reuse_nothing_else and C01_reuse_existing_entries (every flushed sample sits on an existing "
+             "thread entry - recycled handles never dangle). Tied end to end: generated histories "
              "-> perf.data -> `samply import --save-only` -> out.json; a model-independent specification of 'accepted' decides the property on (pid, tid, time) triples and the model is compared entry by entry.",
-        note="Trusted: Coq kernel; perf.data writer; linux-perf-data (parsing, per-round sorting); reading out.json back. Modelled: default options only (no --reuse-threads / --fold-recursive-prefix / "
-             "per-cpu threads / context switches). Which of several incarnations of a reused (pid, tid) receives a sample is fixed by the model and compared entry by entry in the correspondence run.",
+        note="Trusted: Coq kernel; perf.data writer; linux-perf-data (parsing, per-round sorting); reading out.json back. Modelled: default options and --reuse-threads (--fold-recursive-prefix does not touch the bookkeeping; per-cpu threads are not modelled; "
+             "context switches only as far as they touch the tables). Which of several incarnations of a reused (pid, tid) receives a sample is fixed by the model and compared entry by entry in the correspondence run.",
         technique="Coq proof (permutation invariant over buffer moves, induction over the record list) + end-to-end correspondence run with a specification-level oracle evaluated by vm_compute",
         design="4/C01"),
     "C17": dict(
